@@ -12,8 +12,8 @@ RULE = (
     "io and output functions. non-trivial = >=2 gates; distinct = text / canonical circuit"
 )
 BUDGET = {
-    "quick": {"workers": 16, "cases": 130, "secs": 40, "min_cases": 1000},
-    "thorough": {"workers": 16, "rounds": 4, "cases": 500, "secs": 200, "min_cases": 10000},
+    "quick": {"workers": 16, "cases": 1200, "secs": 60, "min_cases": 9600},
+    "thorough": {"workers": 16, "rounds": 4, "cases": 3200, "secs": 420, "min_cases": 102400},
 }
 ANCHORS = ["io:bench_to_circuit", "io:circuit_to_bench"]
 
@@ -49,6 +49,8 @@ def gen_text(rng, big):
     for k, q in enumerate(qs):
         # D nets: gates, inputs, or another flop's Q (chains)
         cand = [g[0] for g in gates] + ins + [x for x in qs if x != q]
+        if rng.random() < 0.08:
+            cand = [q]  # hold register: q = DFF(q)
         dffs.append([q, rng.choice(cand)])
     outs = rng.sample([g[0] for g in gates], min(len(gates), rng.randint(1, 3)))
     if rng.random() < 0.2:
@@ -78,11 +80,13 @@ def gen_text(rng, big):
     elif order == "outputs_last":
         lines = [l for l in lines if l[0] != "out"] + [l for l in lines if l[0] == "out"]
     text = []
+    indent = rng.choice(["", "", "  ", "\t", "mixed"])
     for _, l in lines:
         if rng.random() < 0.15:
             text.append(rng.choice(["", "# a comment line", "#", "   "]))
-        text.append(l)
-    return {"text": "\n".join(text) + ("\n" if rng.random() < 0.7 else ""), "ast": {"inputs": ins, "outputs": list(dict.fromkeys(outs)), "gates": gates, "dffs": dffs}, "order": order}
+        lead = rng.choice(["", " ", "\t", "    "]) if indent == "mixed" else indent
+        text.append(lead + l + rng.choice(["", "", " ", "\t"]))
+    return {"text": "\n".join(text) + ("\n" if rng.random() < 0.7 else ""), "ast": {"inputs": ins, "outputs": list(dict.fromkeys(outs)), "gates": gates, "dffs": dffs}, "order": order, "indent": indent}
 
 
 def gen(rng, ctx):
@@ -100,6 +104,7 @@ def check_read(case, ctx):
     cg = ctx.cg
     ast = case["ast"]
     ctx.count(f"order:{case['order']}")
+    ctx.count(f"indent:{case.get('indent', '')!r}")
     ok, c = ctx.call(cg.io.bench_to_circuit, case["text"], "bt")
     if not ok:
         ctx.violation("bench_read_raised", f"bench_to_circuit raised {c!r}\n{getattr(c, '_tb', '')}")
@@ -113,6 +118,8 @@ def check_read(case, ctx):
         qs = {q for q, _ in ast["dffs"]}
         if any(d in qs for _, d in ast["dffs"]):
             ctx.count("dff_chain")
+        if any(d == q for q, d in ast["dffs"]):
+            ctx.count("dff_self_fed")
     for name, kw, ops in ast["gates"]:
         ctx.table[f"{SEM[kw]}/{len(ops) if len(ops) < 4 else '4+'}"] = ctx.table.get(f"{SEM[kw]}/{len(ops) if len(ops) < 4 else '4+'}", 0) + 1
         if kw == "BUFF":
